@@ -1,6 +1,7 @@
 // Core of the harness: options, fork-based case pool with crash attribution,
 // violation reporting against known_findings.txt, evidence writer.
 #pragma once
+#include <atomic>
 #include <chrono>
 #include <cstdint>
 #include <functional>
@@ -44,6 +45,19 @@ struct Options
 // Pool: runs cases 0..n-1 in forked workers. A case function emits lines
 // (arbitrary strings without '\n'); fatal outcomes (signal, sanitizer report,
 // watchdog) are attributed to the case in flight and the worker is restarted.
+struct SubCrash
+{
+    int64_t substep = -1;
+    bool timeout = false;
+    std::string kind, frame, head;
+};
+// Progress marker inside a case: a case that enumerates many inputs calls at(k) before input k; when the
+// worker dies the supervisor attributes the crash to (case, k) and resumes the case from k + 1.
+struct Sub
+{
+    std::atomic<int64_t>* slot = nullptr;
+    void at(int64_t k) { slot->store(k, std::memory_order_relaxed); }
+};
 struct CaseResult
 {
     enum Status { Ok, Crashed, TimedOut };
@@ -53,6 +67,7 @@ struct CaseResult
     std::string crash_frame;  // innermost frame mentioning djinterop (function name), if any
     std::string crash_head;   // first lines of the report
     std::vector<std::string> lines;
+    std::vector<SubCrash> subcrashes;  // crashes attributed to sub-steps (case was resumed after each)
 };
 
 class Emitter
@@ -71,6 +86,12 @@ struct PoolStats
 {
     size_t cases = 0, crashed = 0, timed_out = 0;
 };
+
+// Resumable variant: fn(i, resume_from, emitter, sub). fn must skip sub-steps < resume_from.
+std::vector<CaseResult> run_pool_sub(
+    size_t n, int jobs, int per_case_timeout_s,
+    const std::function<void(size_t, int64_t, Emitter&, Sub&)>& fn, PoolStats* stats = nullptr,
+    double deadline_abs = 0, bool* deadline_hit = nullptr, size_t max_resumes = 64);
 
 // per_case_timeout_s: SIGALRM watchdog. Returns one CaseResult per case.
 std::vector<CaseResult> run_pool(
@@ -98,6 +119,11 @@ public:
     // Merge a violation serialised by a worker.
     void add_json(const Json& j);
     static Json to_json(const Violation& v);
+    void set_counts(const std::map<std::string, long long>& m)
+    {
+        for (auto& kv : m)
+            if (first_.count(kv.first) && (size_t)kv.second > count_[kv.first]) count_[kv.first] = (size_t)kv.second;
+    }
     size_t total() const { return total_; }
     size_t distinct_keys() const { return first_.size(); }
     // Prints KNOWN-FINDING / VIOLATION lines, writes replay files; returns
